@@ -71,7 +71,7 @@ fn fault_kind(wire: Wire, stall: bool) -> BoxedStrategy<Fault> {
         Wire::Grpc => prop_oneof![
             3 => (1u8..=16).prop_map(Fault::GrpcStatus),
             2 => (1u8..=16).prop_map(Fault::GrpcTrailersOnly),
-            1 => prop::sample::select(vec![429u16, 502, 503]).prop_map(Fault::Status),
+            2 => prop::sample::select(vec![429u16, 502, 503]).prop_map(Fault::Status),
             2 => Just(Fault::CloseBeforeRead),
             2 => Just(Fault::ReadThenClose),
             1 => Just(Fault::AckThenClose),
@@ -222,30 +222,30 @@ fn main() {
         |s| {
             let quick = s.quick();
             let thorough = !quick;
-            s.require("multi-request-batch", if quick { 30 } else { 1500 });
-            s.require("failed-request", if quick { 25 } else { 1200 });
-            s.require("transport:http-json", if quick { 20 } else { 1000 });
-            s.require("transport:http-protobuf", if quick { 20 } else { 1000 });
-            s.require("transport:grpc", if quick { 20 } else { 1000 });
-            s.require("gzip:on", if quick { 20 } else { 1000 });
-            s.require("gzip:off", if quick { 20 } else { 1000 });
-            for f in ["status-5xx", "status-4xx", "close-before-read", "read-then-close", "grpc-status", "grpc-trailers-only-status", "ack-then-close"] {
-                s.require(&format!("fault:{f}"), if quick { 2 } else { 100 });
+            s.require("multi-request-batch", if quick { 90 } else { 1500 });
+            s.require("failed-request", if quick { 60 } else { 1200 });
+            s.require("transport:http-json", if quick { 50 } else { 1000 });
+            s.require("transport:http-protobuf", if quick { 50 } else { 1000 });
+            s.require("transport:grpc", if quick { 50 } else { 1000 });
+            s.require("gzip:on", if quick { 50 } else { 1000 });
+            s.require("gzip:off", if quick { 50 } else { 1000 });
+            for f in ["status-5xx", "status-4xx", "close-before-read", "read-then-close", "grpc-status", "grpc-trailers-only-status", "grpc-http-status", "ack-then-close"] {
+                s.require(&format!("fault:{f}"), if quick { 2 } else { 60 });
             }
-            s.require("fault:stall", if quick { 3 } else { 50 });
-            s.require("outage:refused", if quick { 2 } else { 100 });
-            s.require("outage:reset", if quick { 2 } else { 100 });
-            s.require("outage:503", if quick { 2 } else { 100 });
-            s.require("ending:drop-while-queued", if quick { 2 } else { 100 });
-            s.require("ending:drop-during-backoff", if quick { 2 } else { 100 });
+            s.require("fault:stall", if quick { 5 } else { 60 });
+            s.require("outage:refused", if quick { 3 } else { 60 });
+            s.require("outage:reset", if quick { 3 } else { 60 });
+            s.require("outage:503", if quick { 3 } else { 60 });
+            s.require("ending:drop-while-queued", if quick { 4 } else { 60 });
+            s.require("ending:drop-during-backoff", if quick { 4 } else { 60 });
 
             // (family, cases quick, cases thorough, parallel generator instances)
             let plan: [(Family, &str, u64, u64, usize); 5] = [
-                (Family::Split, "split", 12, 600, 1),
-                (Family::Fault, "fault", 16, 900, 1),
-                (Family::Outage, "outage", 6, 300, 1),
-                (Family::Drop, "drop", 4, 160, 1),
-                (Family::Stall, "stall", 1, 20, 2),
+                (Family::Split, "split", 12, 300, 2),
+                (Family::Fault, "fault", 14, 250, 4),
+                (Family::Outage, "outage", 6, 100, 2),
+                (Family::Drop, "drop", 5, 80, 2),
+                (Family::Stall, "stall", 1, 14, 3),
             ];
             let wires = [(Wire::HttpJson, "http-json"), (Wire::HttpProto, "http-protobuf"), (Wire::Grpc, "grpc")];
             // Cases mostly sleep (back-off, timeouts): every generator runs in its own thread at once.
